@@ -80,3 +80,123 @@ func vh_C16_frontEnds() {
 		verif.Assert(abgArgs.sb.Eq(scalarVal(&b)) && abgArgs.tblNegC.Eq(GNeg(Pid(&C))), "d1 >= 0: (b, -C)")
 	}
 }
+
+// ---- the shared Straus loop of both portable front ends (edwardsMulAbglsvPorninVartimeGenericInner) ----
+//
+// The four recodings (d_0: width 5, e_0 and e_1: width 8, d_1: width 5, requested in that order) are replaced by
+// ARBITRARY digit vectors of NAF shape whose highest non-zero position `top` is owned by the case-split recoding
+// `own`. Tables: multiples of A (generator 0), of B and of 2^128*B (generator 1), of -C (generator 2). One inductive
+// step of the real main loop at position i, entry (the start-index scan must not skip a leading digit of ANY of
+// the four recodings) and exit:
+//     r = (+/-) sum d_0[j] 2^j A + sum (e_0[j] + 2^128 e_1[j]) 2^j B + sum d_1[j] 2^j (-C).
+
+//verif:contract for=(*curve/scalar.Scalar).NonAdjacentForm group=nafabs4
+func na_NAF4(s *scalar.Scalar, w uint) [256]int8 {
+	var d [256]int8
+	n := len(nafLog)
+	top, own := verif.Case("top"), verif.Case("own")
+	wantW := uint(5)
+	if n == 1 || n == 2 {
+		wantW = 8
+	}
+	verif.Requires(w == wantW && n < 4, "recodings: d_0 (5), e_0 (8), e_1 (8), d_1 (5)")
+	lim := int8(1<<(w-1) - 1)
+	for j := 0; j <= top; j++ {
+		if j == top && n != own {
+			continue // another recoding owns the highest non-zero position
+		}
+		x := verif.AnyI8("naf" + string(rune('0'+n)) + "_" + nafItoa(j))
+		verif.Assume(x >= -lim && x <= lim && (x == 0 || x&1 == 1))
+		if j == top {
+			verif.Assume(x != 0)
+		}
+		d[j] = x
+	}
+	nafLog = append(nafLog, d)
+	return d
+}
+
+func abgWant(i int, d0IsNeg bool, d_0_naf, e_0_naf, e_1_naf, d_1_naf *[256]int8) kvec {
+	a := nafAbove(d_0_naf, i)
+	if d0IsNeg {
+		a = a.Neg()
+	}
+	return kvec{a, nafAbove(e_0_naf, i).Add(nafAbove(e_1_naf, i).Mul(verif.Pow2(128))), nafAbove(d_1_naf, i)}
+}
+
+func inv_abg(i int, r *projectivePoint, d0IsNeg bool, d_0_naf, e_0_naf, e_1_naf, d_1_naf *[256]int8) bool {
+	if !verif.IsConcrete(i) {
+		// the start index is the position `top` of the case split whenever the scan looks at all four recodings;
+		// a start index that depends on digits below `top` has skipped a leading digit
+		return false
+	}
+	if i < 0 || i > 255 {
+		return false
+	}
+	return kEq(getK(r), abgWant(i, d0IsNeg, d_0_naf, e_0_naf, e_1_naf, d_1_naf))
+}
+
+func post_abg(r *projectivePoint, d0IsNeg bool, d_0_naf, e_0_naf, e_1_naf, d_1_naf *[256]int8) bool {
+	return kEq(getK(r), abgWant(-1, d0IsNeg, d_0_naf, e_0_naf, e_1_naf, d_1_naf))
+}
+
+//verif:contract for=(*curve/scalar.Scalar).Mul group=abgsc
+func abg_scalarMul(s, a, b *scalar.Scalar) *scalar.Scalar { verif.Havoc(s); return s }
+
+//verif:ob prop=C16,C03 name=abglsv_inner_loop mode=int tags=purego use=pt,naflk,nafabs4,abgsc cut=curve.edwardsMulAbglsvPorninVartimeGenericInner:1 inv=inv_abg post=post_abg cutfix=i native=1 maxinstr=4000000 split=i:0+128+255;top:0+128+255;own:0..3;neg:0..1 tsplit=i:0..255;top:0..255;own:0..3;neg:0..1
+func vh_C16_innerLoop() {
+	if verif.Native() {
+		abglsvEndToEnd()
+		return
+	}
+	i, top := verif.Case("i"), verif.Case("top")
+	// the step at position i is checked with the longest recodings (top = 255); the entry for every top
+	if top != 255 && i != top {
+		verif.SkipRun()
+		return
+	}
+	nafLog = nil
+	var tableA, tableNegC projectiveNielsPointNafLookupTable
+	for j := 0; j < 8; j++ {
+		setK(&tableA[j], kScale(kGen(0), 2*j+1))
+		setK(&tableNegC[j], kScale(kGen(2), 2*j+1))
+	}
+	for j := 0; j < 64; j++ {
+		setK(&constAFFINE_ODD_MULTIPLES_OF_BASEPOINT[j], kScale(kGen(1), 2*j+1))
+		setK(&constAFFINE_ODD_MULTIPLES_OF_B_SHL_128[j], kScaleI(kGen(1), verif.Pow2(128).Mul(verif.IntK(2*j+1))))
+	}
+	var d0, d1, sb scalar.Scalar
+	var out EdwardsPoint
+	edwardsMulAbglsvPorninVartimeGenericInner(&out, verif.Case("neg") == 1, &tableA, &d0, &d1, &sb, &tableNegC)
+}
+
+// the end-to-end statement a natively replayed / searched counterexample must violate: with C = [a]A + [b]B the
+// result is in the 8-torsion, with C + B it is not - for both portable front ends.
+func abglsvEndToEnd() {
+	var ab, bb, kb [32]byte
+	verif.AnyBytes("a", ab[:])
+	verif.AnyBytes("b", bb[:])
+	verif.AnyBytes("k", kb[:])
+	ab[31] &= 127
+	bb[31] &= 127
+	kb[31] &= 127
+	a, _ := scalar.NewFromBits(ab[:])
+	b, _ := scalar.NewFromBits(bb[:])
+	k, _ := scalar.NewFromBits(kb[:])
+	var A, C, t, out EdwardsPoint
+	A.MulBasepoint(ED25519_BASEPOINT_TABLE, k)
+	A.Add(&A, EIGHT_TORSION[1]) // torsion-laden A
+	edwardsMulGeneric(&C, &A, a)
+	edwardsMulGeneric(&t, ED25519_BASEPOINT_POINT, b)
+	C.Add(&C, &t)
+	C.Add(&C, EIGHT_TORSION[3]) // and C
+	edwardsMulAbglsvPorninVartimeGeneric(&out, a, &A, b, &C)
+	verif.Assert(out.IsSmallOrder(), "C = [a]A + [b]B (+ torsion): the result is in the 8-torsion")
+	eA := NewExpandedEdwardsPoint(&A)
+	expandedEdwardsMulAbglsvPorninVartimeGeneric(&out, a, eA, b, &C)
+	verif.Assert(out.IsSmallOrder(), "precomputed-key variant: the result is in the 8-torsion")
+	var C2 EdwardsPoint
+	C2.Add(&C, ED25519_BASEPOINT_POINT)
+	edwardsMulAbglsvPorninVartimeGeneric(&out, a, &A, b, &C2)
+	verif.Assert(!out.IsSmallOrder(), "C = [a]A + [b]B + B: the result is not in the 8-torsion")
+}
